@@ -1,10 +1,11 @@
 //@ item: integer/src/gcd_ops.rs :: macro impl_ibig_gcd#0 :: @arm
-/*@ requires mag0.wf(), mag1.wf(),
+/*@[!inl] requires mag0.wf(), mag1.wf(),
         mag0.v() != 0 || mag1.v() != 0,        // gcd(0, 0) panics (documented)
     // C12: the gcd of the SIGNED operands (by divisibility)
     ensures gcdo_is_gcd(ret.0.v(), sv(sign0, mag0.v()), sv(sign1, mag1.v())), @*/
 {
-        /*@ proof { lemma_im_gcd_signs(sign0, mag0.v(), sign1, mag1.v()); } @*/
+        /*@[!inl] proof { lemma_im_gcd_signs(sign0, mag0.v(), sign1, mag1.v()); } @*/
+        /*@[inl] proof { lemma_im_gcd_signs($sign0, $mag0.v(), $sign1, $mag1.v()); } @*/
         let _unused = ($sign0, $sign1);
         UBig($mag0.gcd($mag1))
     }
